@@ -375,8 +375,6 @@ class FunctionTranslator:
         kind = node.get("kind")
         if kind == "ParenExpr":
             return self.value(node["inner"][0])
-        if kind == "ConstantExpr":                   # wrapper clang puts around constants
-            return self.value(node["inner"][0])
 
         if kind == "IntegerLiteral":
             ty, n = ctype_of(node), int(node["value"])
@@ -466,9 +464,6 @@ class FunctionTranslator:
 
         if is_pointer_typed(node):                   # `if (strchr(..))`, `strchr(..) && ..`
             return self.strchr_found(node)
-        if kind in ("ImplicitCastExpr", "CStyleCastExpr") \
-                and node.get("castKind") == "PointerToBoolean":
-            return self.strchr_found(node["inner"][0])
         return "(negb (%s =? 0))" % self.value(node).term
 
     def pointer_test(self, node, op, lhs, rhs):
